@@ -432,9 +432,12 @@ fn build_history(mode: &str, steps: &[&str]) -> String {
     static N: AtomicU64 = AtomicU64::new(0);
     let base = std::env::temp_dir().join(format!("verif_hist_{}_{}", std::process::id(), N.fetch_add(1, Ordering::Relaxed)));
     let src_dir = base.join("src");
-    let out_dir = base.join("out");
+    // values of OUT_DIR: plain, with a trailing slash, with spaces/dots/non-ASCII in the directory name,
+    // relative to the current directory, and unset (the current directory is used)
+    let out_dir = if mode.ends_with("-space") { base.join("out dir.v1 \u{e9}") } else { base.join("out") };
     std::fs::create_dir_all(&src_dir).unwrap();
     std::fs::create_dir_all(&out_dir).unwrap();
+    let old_cwd = std::env::current_dir().ok();
     let mut parsed: Vec<(String, Vec<(std::path::PathBuf, Option<String>)>)> = Vec::new();
     for (i, st) in steps.iter().enumerate() {
         let Some((n, srcs)) = st.split_once(':') else { return "bad-op".into() };
@@ -459,13 +462,23 @@ fn build_history(mode: &str, steps: &[&str]) -> String {
             }
         }
     };
-    if mode == "pre" {
+    if mode.starts_with("pre") {
         for (_, files) in &parsed {
             write_sources(files);
         }
     }
     // SAFETY: operations run sequentially in this process
-    unsafe { std::env::set_var("OUT_DIR", &out_dir) };
+    if mode.ends_with("-slash") {
+        unsafe { std::env::set_var("OUT_DIR", format!("{}/", out_dir.display())) };
+    } else if mode.ends_with("-relative") {
+        std::env::set_current_dir(&base).unwrap();
+        unsafe { std::env::set_var("OUT_DIR", "out") };
+    } else if mode.ends_with("-unset") {
+        std::env::set_current_dir(&out_dir).unwrap();
+        unsafe { std::env::remove_var("OUT_DIR") };
+    } else {
+        unsafe { std::env::set_var("OUT_DIR", &out_dir) };
+    }
     let snapshot = |d: &std::path::Path| -> BTreeMap<String, String> {
         let mut m = BTreeMap::new();
         if let Ok(rd) = std::fs::read_dir(d) {
@@ -479,7 +492,7 @@ fn build_history(mode: &str, steps: &[&str]) -> String {
     let mut results = Vec::new();
     let mut verdict = String::new();
     for (k, (name, files)) in parsed.iter().enumerate() {
-        if mode != "pre" {
+        if !mode.starts_with("pre") {
             write_sources(files);
         }
         let leaked: &'static str = Box::leak(name.clone().into_boxed_str());
@@ -505,6 +518,10 @@ fn build_history(mode: &str, steps: &[&str]) -> String {
         }
     }
     let fin = snapshot(&out_dir);
+    if let Some(d) = old_cwd {
+        let _ = std::env::set_current_dir(d);
+    }
+    unsafe { std::env::set_var("OUT_DIR", &out_dir) };
     let _ = std::fs::remove_dir_all(&base);
     if !verdict.is_empty() {
         return verdict;
